@@ -96,3 +96,26 @@ Proof.
     rewrite ci_eqb_sym. rewrite ci_eqb_sym in H. rewrite ci_eqb_sym. exact H. }
   induction hs as [|e hs IH]; [reflexivity|]. cbn [find]. rewrite E. destruct (ci_eqb (fst e) k'); [reflexivity|exact IH].
 Qed.
+
+(* Server: every list of non-empty tokens without blanks survives write / parse *)
+Definition token_ok (t : bytes) : Prop := t <> [] /\ Forall (fun c => ascii_eqb c " " = false) t.
+
+Lemma split_blank_token : forall t cur rest, Forall (fun c => ascii_eqb c " " = false) t ->
+  split_blank (t ++ rest) cur = split_blank rest (rev t ++ cur).
+Proof.
+  induction t as [|c t IH]; intros cur rest H; [reflexivity|]. cbn [app split_blank]. rewrite (Forall_inv H).
+  rewrite IH by exact (Forall_inv_tail H). cbn [rev]. rewrite <- app_assoc. reflexivity.
+Qed.
+
+Lemma server_roundtrip : forall ts, Forall token_ok ts -> server_parse (server_write ts) = ts.
+Proof.
+  unfold server_parse. induction ts as [|t ts IH]; intros H; [reflexivity|].
+  destruct (Forall_inv H) as [Hne Hok]. destruct ts as [|t2 ts'].
+  - cbn [server_write]. rewrite <- (app_nil_r t) at 1. rewrite split_blank_token by exact Hok. cbn [split_blank].
+    rewrite app_nil_r. destruct (rev t) eqn:E; [apply (f_equal (@rev _)) in E; rewrite rev_involutive in E; cbn in E; congruence|].
+    rewrite <- E, rev_involutive. reflexivity.
+  - change (server_write (t :: t2 :: ts')) with (t ++ " "%char :: server_write (t2 :: ts')).
+    rewrite split_blank_token by exact Hok. cbn [split_blank]. replace (ascii_eqb " " " ") with true by reflexivity.
+    rewrite app_nil_r. destruct (rev t) eqn:E; [apply (f_equal (@rev _)) in E; rewrite rev_involutive in E; cbn in E; congruence|].
+    rewrite <- E, rev_involutive. f_equal. apply IH. exact (Forall_inv_tail H).
+Qed.
